@@ -148,14 +148,15 @@ inductive Emit where
 inductive Simple where
   /-- a data / location directive or a label: `Core.Directives.step` -/
   | dir (d : Directive)
-  /-- an instruction on source line `line` -/
-  | instr (line : BitVec 32) (es : List Emit)
+  /-- an instruction on source line `line`; `listed` is false inside an `.include` file (include_parse clears
+  `write_list_file` while the file is assembled) -/
+  | instr (line : BitVec 32) (listed : Bool) (es : List Emit)
   deriving Repr
 
 inductive Stmt where
   | simple (s : Simple)
   /-- `.repeat count` … `.endr` on source line `line` (the line of `.endr`: `tokens.line` when the copies are made) -/
-  | rep (line : BitVec 32) (count : Nat) (body : List Simple)
+  | rep (line : BitVec 32) (listed : Bool) (count : Nat) (body : List Simple)
   deriving Repr
 
 /-- `list_output(this, start, stop)` and what it printed; `first` is where the code bytes of the range begin
@@ -242,11 +243,12 @@ def execSimple (cfg : Cfg) (ls : LSt) : Simple → Except Err LSt
       let n := dataLen ls.st d
       .ok { ls with st := st', writes := ls.writes ++ addrRange ls.st.address n,
                     nowrap := ls.nowrap && decide (ls.st.address.toNat + n ≤ 4294967296) }
-  | .instr line es =>
+  | .instr line listed es =>
     let start := ls.st.address
     let st' := es.foldl (emitOne cfg line) ls.st
     -- `if (list != nullptr && write_list_file == true) { list_output(this, start_address, address); }`
-    let calls := if cfg.listing then ls.calls ++ [mkCall cfg st'.memory start st'.address (codeStart start es)] else ls.calls
+    let calls := if cfg.listing ∧ listed then ls.calls ++ [mkCall cfg st'.memory start st'.address (codeStart start es)]
+                 else ls.calls
     .ok { st := st', calls, writes := ls.writes ++ emitAddrs (decide (ls.st.pass = 1) && cfg.p1wd) start es,
           nowrap := ls.nowrap && decide (start.toNat + emitSpan es ≤ 4294967296) }
 
@@ -299,7 +301,7 @@ def copyWrites (cfg : Cfg) (pass : Nat) (stop : BitVec 32) (n count : Nat) : Lis
 
 def execStmt (cfg : Cfg) (ls : LSt) : Stmt → Except Err LSt
   | .simple s => execSimple cfg ls s
-  | .rep line count body =>
+  | .rep line listed count body =>
     if count = 0 then .error .error               -- `count <= 0`: print_error_unexp
     else
       let start := ls.st.address
@@ -309,7 +311,7 @@ def execStmt (cfg : Cfg) (ls : LSt) : Stmt → Except Err LSt
         let stop := ls1.st.address
         let st2 := copyAll cfg line start stop count ls1.st
         let n := spanLen start stop
-        let calls := if cfg.listing then ls1.calls ++ repRuns cfg st2.memory (st2.address.toNat - stop.toNat) stop st2.address
+        let calls := if cfg.listing ∧ listed then ls1.calls ++ repRuns cfg st2.memory (st2.address.toNat - stop.toNat) stop st2.address
                      else ls1.calls
         .ok { st := st2, calls, writes := ls1.writes ++ copyWrites cfg ls1.st.pass stop n count,
               nowrap := ls1.nowrap && decide (stop.toNat + n * (count - 1) ≤ 4294967296) }
